@@ -121,13 +121,23 @@ def gen_history(rngs, n_ops, fault_rate=0.3, fault_classes=None, io_ops=True, si
                 # pass one of the student's own variables by name instead of a value
                 op['args_locals'] = [r.choice(['counter', 'sys.argv[:0]', 'str(counter)', '[counter, counter]'])]
             if fn == 'kw' and r.random() < 0.6:
-                op['kwargs'] = r.choice([{'b': 5}, {'c': 7}, {'b': 1, 'c': 1}])
+                c2 = r.random()
+                if c2 < 0.6:
+                    op['kwargs'] = r.choice([{'b': 5}, {'c': 7}, {'b': 1, 'c': 1}])
+                elif c2 < 0.8:
+                    op['function_kwargs'] = r.choice([{'b': 4}, {'c': 6, 'b': 0}])      # e.g. names that clash with call()'s own
+                else:
+                    op['kwargs_locals'] = r.choice([{'b': 'counter'}, {'c': 'counter + 1'}])
+            if r.random() < 0.12:
+                op['target'] = r.choice(['result_box', 'answer_value', '_'])
             if r.random() < 0.15:
                 op['inputs'] = [r.choice(['in1', '7'])]
         elif c < 0.74:
             fn = r.choice(['quiet(1, 2)', 'chatty(2)', 'boom(0)', 'boom(5)', 'tick()', "noeol('e')", 'counter',
                            "ask('<<e1>>')", '1 + 1', "echo('v')", 'swallow(0)', "writer('raw')", '[tick(), tick()]'])
             op = {'op': 'evaluate', 'expr': fn}
+            if r.random() < 0.12:
+                op['target'] = r.choice(['evaluated_value', 'tmp_result'])
         elif io_ops and c < 0.80:
             op = {'op': 'set_input', 'value': r.choice([['a', 'b'], 'solo', 5, [], ['x'], None, [1, 2]]),
                   'clear': r.random() < 0.8}
